@@ -36,8 +36,9 @@ Definition proved_items : list (string * string) :=
   [("Attribute::Envelope", "AttributeValue::Envelope"); ("Attribute::ModSeq", "AttributeValue::ModSeq");
    ("Attribute::Rfc822", "AttributeValue::Rfc822"); ("Attribute::Rfc822Size", "AttributeValue::Rfc822Size");
    ("Attribute::Rfc822Text", "AttributeValue::Rfc822Text"); ("Attribute::Uid", "AttributeValue::Uid");
-   ("Attribute::GmailMsgId", "AttributeValue::GmailMsgId")].
-Definition not_yet_proved : list string := ["Attribute::Body"; "Attribute::Flags"; "Attribute::InternalDate"; "Attribute::GmailLabels"].
+   ("Attribute::GmailMsgId", "AttributeValue::GmailMsgId"); ("Attribute::Flags", "AttributeValue::Flags");
+   ("Attribute::InternalDate", "AttributeValue::InternalDate")].
+Definition not_yet_proved : list string := ["Attribute::Body"; "Attribute::GmailLabels"].
 
 Lemma items_partition :
   forallb (fun a => existsb (String.eqb a) (map fst proved_items ++ not_yet_proved)) builder_attrs = true.
